@@ -433,7 +433,8 @@ def abstract_ni(it, mod, nblocks=2, has_sdmx=True, nldf=False):
     def sd_features(dm, mol, coords, ao=None, cao=None, **kw):
         dm = np.asarray(dm, dtype=object)
         ids = [tm.lift(dm[0, 0])] if dm.ndim == 2 else [tm.lift(d[0, 0]) for d in dm]
-        ghost.cache["sdmx"] = dm_owners(dm)        # the cached contraction coefficients belong to the density passed
+        # the cached contraction coefficients belong to the density passed; a 3-d argument is a stack (one coefficient set per entry)
+        ghost.cache["sdmx"] = [dm_owners(dm)] if dm.ndim == 2 else [dm_owners(d) for d in dm]
         out = np.empty((len(ids), 2, NS) if dm.ndim == 3 else (1, 2, NS), dtype=object)
         for s, d in enumerate(ids):
             for c in range(2):
@@ -445,7 +446,9 @@ def abstract_ni(it, mod, nblocks=2, has_sdmx=True, nldf=False):
     def sd_vxc(vmat, v, **kw):
         # contract: requires the cached coefficients to belong to the density this potential was computed from
         ghost.uses += 1
-        own, have = dm_owners(v), ghost.cache.get("sdmx")
+        own, slots = dm_owners(v), ghost.cache.get("sdmx")
+        # a 2-d vmat is contracted with the first cached coefficient set; a stacked vmat with all of them
+        have = None if slots is None else (slots[0] if np.asarray(vmat, dtype=object).ndim == 2 else set().union(*slots))
         if have is None or not own <= have:
             ghost.misuse.append(("sdmxgen.get_vxc_", sorted(own), sorted(have or [])))
         args = [tm.lift(u) for u in np.asarray(v, dtype=object).reshape(-1)]
